@@ -6,6 +6,8 @@ props = [json.loads(l) for l in open(os.path.join(V, 'properties.jsonl'))]
 TECH = "SMT-based symbolic execution of the real Go SSA (own engine gosym, z3 decides every branch and assertion within the stated bounds); counterexamples and sampled path witnesses replayed natively"
 TRUST = "trusted base: go/ssa construction, the gosym interpreter and its listed stubs, z3 4.8.12; bounds as listed in checks/%s.json and repeated in the evidence file; nothing is claimed outside them"
 claims = {
+ "C14": ("fault_enumeration", "the real Transaction wrappers (SQLiteDB/PostgresDB/MySQLDB/ORM) and the three BulkInsert implementations over a model store driven through a modelled database/sql: failing Begin/Commit/Rollback, failing statement positions, callback error, panic position and context-cancellation position are solver variables / engine choices; oracle = all-or-nothing, transaction finished on every exit, panic re-raised, handle usable afterwards. Wrapper logic only: the database engine's own atomicity is not claimed", "section 4 C14"),
+ "C17": ("model_checking", "symbolic URL path / SendFile target bytes (full byte range) through the real StaticFileServer.ServeHTTP and ResponseHelper.SendFile, with path.Clean, filepath.Join and filepath.EvalSymlinks interpreted from their source over a model file system that implements Unix path resolution on symbolic bytes; every served body names the physical file it came from, which must be a regular file under the resolved root", "section 4 C17"),
  "C11": ("model_checking", "the real rateLimitMiddleware -> RateLimitMiddleware chain on a virtual clock: symbolic declared N, every window spelling, greedy arrivals on a time grid, against the property's bound N x (1+T/window); client identity (port, forwarding headers) with symbolic bytes", "section 4 C11"),
  "C12": ("model_checking", "symbolic method-name byte strings through every call form (CallMethod/HasMethod, obj.m(a), m(obj,a), nested paths, field access) against a probe provider whose off-list methods fail the check when invoked; argument vectors of every kind through the modelled reflect.Call with its documented panics", "section 4 C12"),
  "C13": ("model_checking", "symbolic identifier/operator/direction/join/column-type byte strings through the real sanitizers, QueryBuilder.Build and ORM statement builders; the produced SQL must equal the fixed template over identifiers that satisfy an independently written safe grammar, with values only in the bound-argument list. Text structure only: execution against a real database is not claimed", "section 4 C13"),
